@@ -24,6 +24,12 @@ class TC(CombinatorialClass):
     def to_jsonable(self): d = super().to_jsonable(); d["i"] = self.i; return d
     @classmethod
     def from_dict(cls, d): return cls(d["i"])
+    COMPRESS = False  # True: the class database stores the classes as bytes (no class object is kept alive by it)
+    def to_bytes(self):
+        if not TC.COMPRESS: raise NotImplementedError
+        return str(self.i).encode()
+    @classmethod
+    def from_bytes(cls, b): return cls(int(b.decode()))
     def __eq__(self, o): return isinstance(o, TC) and o.i == self.i
     def __hash__(self): return hash(self.i)
     def __repr__(self): return f"TC({self.i})"
@@ -106,6 +112,28 @@ def gen_universe(rnd, n):
         if items: fac[i] = items
     U["factory"]["F1"] = fac
     return U
+
+def enrich(U, xr):
+    """a richer universe from a generated one (its own random source, so that the generated universes stay what they are):
+    factories that yield three to five strategies / ready rules for a class in one call, and inferral rules with two children
+    the first of which is empty"""
+    n = len(U["empty"])
+    nonempty = [i for i in range(n) if not U["empty"][i]]
+    empty = [i for i in range(n) if U["empty"][i]]
+    fac = U["factory"]["F1"]
+    for i in nonempty:
+        if xr.random() < 0.6:
+            items = list(fac.get(i, []))
+            while len(items) < xr.randint(3, 5):
+                items.append(("strat", xr.choice(["U1", "U2"])) if xr.random() < 0.5 else ("rule", xr.choice(["U1", "U2"]), xr.choice(nonempty)))
+            fac[i] = items
+    if empty:
+        for name in ("I1", "I2"):
+            for i, ch in list(U["rules"][name].items()):
+                if len(ch) == 1 and xr.random() < 0.5:
+                    U["rules"][name][i] = (xr.choice(empty), ch[0])
+    return U
+
 
 def gen_pack(rnd, iterative=False):
     strat = {"U1": TUnion("U1"), "U2": TUnion("U2"), "P1": TProd("P1"), "P2": TProd("P2"),
